@@ -128,14 +128,12 @@ Print Assumptions C14_hook_equals_queryAdapter.
 
 (* ------------------------------------------------------------------ non-vacuity *)
 
-Definition ex_other := mkExn EOther 7.
-
 (* the combination the property record names: conform returns None AND a hook raises AND an
    alternate is given: hook 0 passes, hook 1 raises, hook 2 and the alternate are never reached *)
 Example C14_witness_combination :
   py_call (type_of_chain true [])
-          (mkObj CRetNone false [HNone; HRaise ex_other; HValue 5] (Some 9)) =
-  ([EvGetConform; EvCallConform; EvProvided; EvHook 0; EvHook 1], RaiseE (User ex_other)).
+          (mkObj CRetNone false [HNone; HRaise (mkExn EOther 7); HValue 5] (Some 9)) =
+  ([EvGetConform; EvCallConform; EvProvided; EvHook 0; EvHook 1], RaiseE (User (mkExn EOther 7))).
 Proof. reflexivity. Qed.
 
 (* the bare TypeError at call depth 0 is swallowed, a TypeError raised in user code is not *)
@@ -150,10 +148,10 @@ Proof. repeat split; reflexivity. Qed.
 
 (* hypotheses of C14_lazy_hooks / C14_exceptions_propagate / C14_custom_adapt_replaces are met *)
 Example C14_witness_hypotheses :
-  let o := mkObj CRetNone false [HNone; HRaise ex_other; HValue 5] (Some 9) in
+  let o := mkObj CRetNone false [HNone; HRaise (mkExn EOther 7); HValue 5] (Some 9) in
   In (EvHook 1) (fst (py_call (type_of_chain true []) o)) /\
   conform_passes (conf o) = true /\
-  hooks o = [HNone] ++ HRaise ex_other :: [HValue 5] /\
+  hooks o = [HNone] ++ HRaise (mkExn EOther 7) :: [HValue 5] /\
   custom_defs 0 [mkLvl (Some (CAValue 4)) false; mkLvl None true] = [(0, CAValue 4)] /\
   py_call (type_of_chain true [mkLvl (Some (CAValue 4)) false; mkLvl None true]) o =
     ([EvGetConform; EvCallConform; EvCustom 0], Return 4) /\
